@@ -859,12 +859,9 @@ pub fn string_pad_start(
         return Ok(Guarded::unguarded(JsValue::String(s)));
     }
 
+    // Lengths count characters, so the padding is cut by characters too
     let pad_len = target_length - current_len;
-    let mut padding = String::new();
-    while padding.len() < pad_len {
-        padding.push_str(pad_string.as_str());
-    }
-    padding.truncate(pad_len);
+    let padding: String = pad_string.as_str().chars().cycle().take(pad_len).collect();
 
     Ok(Guarded::unguarded(JsValue::String(JsString::from(
         format!("{}{}", padding, s.as_str()),
@@ -888,12 +885,9 @@ pub fn string_pad_end(
         return Ok(Guarded::unguarded(JsValue::String(s)));
     }
 
+    // Lengths count characters, so the padding is cut by characters too
     let pad_len = target_length - current_len;
-    let mut padding = String::new();
-    while padding.len() < pad_len {
-        padding.push_str(pad_string.as_str());
-    }
-    padding.truncate(pad_len);
+    let padding: String = pad_string.as_str().chars().cycle().take(pad_len).collect();
 
     Ok(Guarded::unguarded(JsValue::String(JsString::from(
         format!("{}{}", s.as_str(), padding),
